@@ -698,7 +698,14 @@ func (c *Client) Start() (addr net.Addr, err error) {
 	cmd.Stdin = os.Stdin
 
 	if c.config.SecureConfig != nil {
-		if ok, err := c.config.SecureConfig.Check(cmd.Path); err != nil {
+		// Verify the file that will be executed: os/exec evaluates a relative
+		// Path relative to the command's Dir when one is set, not relative to
+		// our own working directory.
+		checkPath := cmd.Path
+		if cmd.Dir != "" && !filepath.IsAbs(checkPath) {
+			checkPath = filepath.Join(cmd.Dir, checkPath)
+		}
+		if ok, err := c.config.SecureConfig.Check(checkPath); err != nil {
 			return nil, fmt.Errorf("error verifying checksum: %s", err)
 		} else if !ok {
 			return nil, ErrChecksumsDoNotMatch
